@@ -11,7 +11,9 @@ RUN_MODULE = "Run.Run_C19"
 GEN_FILES = ["Gen_effects.v"]
 RULE = ("every function of the closed scope list (35 functions of tx/props/sat/io/utils, 27 read-only Circuit methods, the circuit "
         "argument of add_subcircuit/fill_blackbox) x lint-clean circuits from lib.rand_dag (1-3 inputs, 1-6 gates, constants), about half "
-        "of them with a flip-flop blackbox spliced in (lib.add_flop, sometimes with an unconnected pin); arguments of the call drawn at "
+        "of them with 1-3 blackbox instances of 1-3 types (ff, ffr, ffe, ff2: nested and non-nested pin sets, instances of one type "
+        "share the BlackBox object); the argument is built with all attributes, on a user graph without `output` attributes "
+        "(Circuit(graph=g)) or through the fast Verilog reader; arguments of the call drawn at "
         "random (node names incl. a non-existent one for the raise paths, subsets, flags, a second circuit or the same object twice for "
         "miter); every call followed by 4-6 random edits (add/remove node, attribute change, edge, registry entry, name) of every result "
         "and then of every argument; non-trivial = argument with >= 3 nodes; distinct = (function, circuit, parameters)")
@@ -78,14 +80,19 @@ def gen_circuit(rng, fn, big):
     p_bb = 0.9 if fn in NEED_BB else 0.2 if fn in NO_BB else 0.5
     if rng.random() < p_bb:
         r = rng.random()
-        if r < 0.3:
+        if r < (0.1 if fn in NEED_BB else 0.3):
             d = lib.add_flop(rng, d)
         else:
             # one to three instances of one to three blackbox types (two instances may share a type = share the BlackBox object)
             k = 1 if r < 0.45 else 2 if r < 0.85 else 3
+            if fn in NEED_BB:
+                k = max(k, 2)
             types = [rng.choice(list(BB_TYPES)) for _ in range(k)]
-            if k >= 2 and rng.random() < 0.6:
-                types[1] = rng.choice([t for t in BB_TYPES if t != types[0]])
+            if k >= 2 and (rng.random() < 0.6 or fn in NEED_BB):
+                # two different types; for the functions that walk over all flops mostly with pin sets that are not nested
+                others = [t for t in BB_TYPES if t != types[0]]
+                loose = [t for t in others if not (set(BB_TYPES[t][0]) <= set(BB_TYPES[types[0]][0]) or set(BB_TYPES[types[0]][0]) <= set(BB_TYPES[t][0]))]
+                types[1] = rng.choice(loose if loose and rng.random() < 0.7 else others)
             for i, t in enumerate(types):
                 d = splice_bb(rng, d, f"u{i}", t)
     d["name"] = rng.choice(["top", "m1", "circuit"])
@@ -130,6 +137,20 @@ def gen_case(rng, fn, tier):
     pick = lambda: rng.choice(names) if rng.random() < 0.88 else "no_such_node"
     case = {"fn": fn, "circuit": d, "eseed": rng.getrandbits(30), "n": pick(), "m": pick(), "flag": rng.random() < 0.5,
             "k": rng.randint(1, 3), "subset": [n for n in names if rng.random() < 0.6]}
+    if fn in ("tx.sensitization_transform", "props.influence", "props.avg_sensitivity") and rng.random() < 0.5:
+        # an endpoint whose fan-in cone is as large as possible (often the whole circuit), a start node inside it
+        fi = {n[0]: set(n[3]) for n in d["nodes"]}
+        def cone(x, seen=None):
+            seen = set() if seen is None else seen
+            for y in fi[x]:
+                if y not in seen:
+                    seen.add(y); cone(y, seen)
+            return seen
+        best = max(names, key=lambda x: len(cone(x)))
+        if cone(best):
+            case["m"], case["n"], case["flag"] = best, rng.choice(sorted(cone(best))), True
+            if fn != "tx.sensitization_transform":
+                case["n"], case["flag"] = best, False
     if fn == "tx.miter":
         r = rng.random()
         case["second"] = "none" if r < 0.35 else "same" if r < 0.55 else "other"
@@ -428,14 +449,16 @@ def mutate_case(rng, case):
 
 CLAIMED = True
 LEVEL_TEXT = ("Theorems over the store model (heap cells for DiGraph objects, registry dicts, Circuit objects, containers): every effect summary "
-              "accepted by the checker -- and the summaries of all 64 listed functions, regenerated from the source, are accepted -- leaves "
+              "accepted by the checker -- and the 73 summaries of all listed functions, regenerated from the source, are accepted -- leaves "
               "every pre-existing cell unchanged on return and on raise at any point, returns only cells allocated by the call (disjoint "
               "from everything reachable from the arguments), and any later sequence of mutator steps on one side is invisible to the other. "
-              "The runtime oracle snapshots, identity-scans and edits real circuits for every listed function.")
+              "BlackBox objects with their pin sets are heap cells: shared by design, never written by a listed function. "
+              "The runtime oracle snapshots (registry down to the pin sets), identity-scans and edits real circuits for every listed function.")
 LEVEL_NOTE = ("Partial by nature: the theorems are about the store model; its faithfulness to CPython/networkx (what graph.copy(), "
               "relabel_nodes, subgraph().copy(), dict.copy(), graph.update and the mutators touch; the classification tables of the "
               "translator gen/plugins/effects.py) is observational, established by the snapshot/identity/edit runs of this check. "
-              "BlackBox objects and strings are treated as immutable values (a BlackBox shared between registries is not reported); "
+              "Sharing of BlackBox objects between argument and result is by design (dict.copy() is shallow) and not reported; the theorem "
+              "and the oracle say that no listed function writes one; strings are values; "
               "per-node attribute dicts and adjacency dicts are part of the DiGraph cell in the model and scanned individually at run "
               "time. tx.syn, tx.aig, utils.visualize are exercised up to the OSError they raise without yosys/genus/dc.")
 TECHNIQUE = "Coq proof (checker soundness: frame + independent histories) + regenerated effect summaries + snapshot/identity/edit oracle judged in Coq"
